@@ -252,6 +252,7 @@ def cases(tier, seed):
                             (lay, sc, dp), "kind": "tiff", "layout": lay,
                             "scaling": sc, "depth": dp, "tier": tier})
     out.append({"id": "tiff:constant-image", "kind": "tiffconst"})
+    out.append({"id": "tiff:image-set", "kind": "tiffset"})
     for r in RASTERS:
         for ext in ("png", "tif"):
             if r.startswith("F32") and ext == "png":
@@ -849,6 +850,53 @@ def _run_tiffconst(case, ck, d):
         ck.true("tiff-constant", ok, "constant image of %r (%s) reloads as "
                 "%s" % (val, dtype, _short(g.ravel()[:4].tolist())))
         acc.append(np.nan_to_num(g, nan=-1.0))
+    return digest(*acc)
+
+
+def _run_tiffset(case, ck, d):
+    """save_images: a set of images with different value ranges written in
+    one call; every file must reload to its own image"""
+    import holopy as hp
+    from holopy.core.io import save_images
+    acc = []
+    ims, paths = [], []
+    for k, (lo, hi) in enumerate(((0.0, 1.0), (10.0, 50.0), (-3.0, 2.0))):
+        arr = lo + (hi - lo) * ((np.arange(20) * 7) % 20).reshape(4, 5) / 19.0
+        ims.append(_mkimage([4, 5], None, "float64", [0.1, 0.2], "im%d" % k,
+                            {f: "scalar" for f in FIELDS}, arr=arr))
+        paths.append(os.path.join(d, "set_%d.tif" % k))
+    for depth in (8, 16):
+        try:
+            with warnings.catch_warnings():
+                warnings.simplefilter("ignore")
+                save_images(paths, ims, depth=depth)
+            ck.trans += 1
+        except Exception as e:
+            ck.true("tiffset-save", False, "save_images(depth=%r) raised %s"
+                    % (depth, _exc(e)))
+            continue
+        for im, path in zip(ims, paths):
+            try:
+                with warnings.catch_warnings():
+                    warnings.simplefilter("ignore")
+                    got = hp.load(path)
+                ck.trans += 1
+            except Exception as e:
+                ck.true("tiffset-load", False, "loading %s raised %s" %
+                        (os.path.basename(path), _exc(e)))
+                continue
+            v = np.asarray(im.values, dtype=float)
+            g = np.asarray(got.values, dtype=float)
+            tol, step = _tiff_tol(float(v.min()), float(v.max()), depth,
+                                  "auto", float(np.abs(v).max()))
+            e = float(np.abs(g.reshape(v.shape) - v).max()) \
+                if g.size == v.size else float("inf")
+            ck.metric("tiffset-steps", e / step)
+            ck.true("tiffset-values", e <= tol, "image %s of a set written "
+                    "by save_images(depth=%r) reloads with an error of %.3g "
+                    "(%.1f quantisation steps of its own range)" %
+                    (im.name, depth, e, e / step))
+            acc.append(np.round(g, 6))
     return digest(*acc)
 
 
@@ -1620,6 +1668,8 @@ def run_case(case):
             extra["counts"] = counts
         elif k == "tiffconst":
             fp = _run_tiffconst(case, ck, d)
+        elif k == "tiffset":
+            fp = _run_tiffset(case, ck, d)
         elif k == "raster":
             fp, outcome, counts = _run_raster(case, ck, d)
             extra["counts"] = counts
